@@ -51,7 +51,7 @@ ENDINGS = ['mid_http', 'mid_frame_header', 'mid_ext_len', 'mid_payload',
            'connect_fail', 'abandoned', 'protocol_error', 'clean',
            'request_fail', 'connect_fail_then_close', 'close_on_connecting',
            'close_truncated_reason', 'bad_utf8_text', 'inflate_error',
-           'sent_compressed']
+           'sent_compressed', 'failover']
 
 EXT = b'Sec-WebSocket-Extensions: permessage-deflate'
 
@@ -79,6 +79,12 @@ TBASES = [
     # the consumer keeps the abandoned generator: the old socket stays open
     {'name': 'close_vs_reconnect_old_kept', 'threads': [[_CLOSE]],
      'abandon': {'name': 'poll', 'nth': 1}, 'hold': True},
+    # a compressed send of the old connection is stuck in sendall for 40 s
+    # (its peer stopped reading, the old socket is still open) while the new
+    # connection sends compressed messages of its own
+    {'name': 'stalled_compressed_send_vs_reconnect', 'threads': [[_TXT]],
+     'abandon': {'name': 'poll', 'nth': 1}, 'hold': True, 'compress': True,
+     'stall': {'tid': 1, 'k': 0, 'us': 40000001}},
 ]
 _TINFO = {}
 
@@ -92,7 +98,12 @@ def _tscenario(case):
         S.send(peer.enc_frame(1, b'three'), after=1800007),
         S.send(peer.enc_frame(1, b'four'), after=1500001),
         S.eof(after=1500009)]}
-    return {'url': 'ws://example.test/', 'ws': {'compress': False},
+    if case.get('compress'):
+        for c in (first, second):
+            c['server'][1] = S.handshake_steps([EXT])[1]
+    return {'url': 'ws://example.test/',
+            'ws': {'compress': bool(case.get('compress'))},
+            'stall': case.get('stall'),
             'connect': {'poll': 0.25, 'ping_rate': 0, 'close_timeout': 30},
             'conns': [first, second], 'n_connects': 2,
             'rebind': bool(case.get('rebind')), 'hold': bool(case.get('hold')),
@@ -144,7 +155,10 @@ def _threaded_case(family, i, rng):
         else:
             case['schedule'] = {'kind': 'preempt', 'points': [[step, tid]]}
     else:
-        case = copy.deepcopy(TBASES[rng.randrange(len(TBASES))])
+        # (random walks may let simulated seconds pass between two lines of
+        # a runnable thread: not for the base whose oracle is about time)
+        fair = [b_ for b_ in TBASES if not b_.get('stall')]
+        case = copy.deepcopy(fair[rng.randrange(len(fair))])
         case['schedule'] = {'kind': 'random', 'seed': rng.getrandbits(32),
                             'stay': rng.choice([0.5, 0.8, 0.95])} \
             if rng.random() < 0.6 else \
@@ -202,6 +216,13 @@ def _execute_threaded(case):
                             [(x.tid, x.op['op'], x.outcome) for x in tr.tcalls],
                             site_sig(sched)))
                 break
+        if case.get('stall') and sched.stalled_on == 0 and \
+                last[-1].t - last[0].t > 12000000:
+            res.bad('C17/threaded/second_connection_held_up',
+                    'the second connection (server done after 5.5 s) took '
+                    '%.1f s: it waited for the stalled send of the first '
+                    'one | events %s' % ((last[-1].t - last[0].t) / 1e6,
+                                         names[-5:]))
         if 'ready' in names and not closes and 'text' not in names:
             res.bad('C17/threaded/message_lost_on_clean_connection',
                     'events of the second connection: %s' % names[-6:])
@@ -342,6 +363,12 @@ def _prev_conn(e, compress, attempt):
               'do': [{'op': 'close', 'code': 1001, 'reason': 'going'}]}]
     if k == 'rejected':
         return {'server': S.handshake_steps(accept='other_key') + [end]}, rules
+    if k == 'failover':
+        # the host has two addresses: the first refused, the second accepted
+        # (on the LAST connection it is the other way round, see _last)
+        return {'server': hs + [S.send(peer.enc_frame(1, b'via second')),
+                                end],
+                'addrs': [{'connect': 'refused'}, {}]}, rules
     if k == 'connect_fail':
         return {'resolve': 'gaierror'} if e['seed'] % 2 else \
             {'addrs': [{'connect': 'refused'}]}, rules
@@ -422,6 +449,10 @@ def _last(case, attempt):
     sc = ST.stream_scenario(case, enc, tail,
                             extra_headers=[EXT] if compress else ())
     conn = sc['conns'][0]
+    if any(e['kind'] == 'failover' for e in case['prev']):
+        # two addresses here as well: the first one accepts, the second
+        # would refuse
+        conn['addrs'] = [{}, {'connect': 'refused'}]
     rules = [{'when': {'name': 'text', 'nth': 0, 'attempt': attempt},
               'do': [{'op': 'send_text', 'text': u'client says €uro ' * 8},
                      {'op': 'send_text', 'text': u'client says €uro ' * 8}]},
